@@ -45,7 +45,7 @@ def c11(tier):
     # classes split against each other across rules (`_` beside ranges beside characters):
     # product exploration over all strings
     multi = []
-    for fam in ["range_overlap", "diff_rules"]:
+    for fam in ["range_overlap", "diff_rules", "fold", "high"]:
         r = vlib.pexp(["product", fam])
         multi.append({k: r.get(k) for k in ["family", "defs", "states", "transitions", "exhaustive"]})
         for v in r.get("violations", []):
